@@ -29,7 +29,7 @@ func allFuncs() []*fnEntry {
 					return
 				}
 				seen[fi] = true
-				if fi.Pkg == &slip.UserPkg && fi.Name == "tr" { // the harness' own trace function
+				if fi.Pkg == &slip.UserPkg && (fi.Name == "tr" || fi.Name == "c04rec" || fi.Name == "c04enter") { // the harness' own functions
 					return
 				}
 				funcsList = append(funcsList, &fnEntry{pkg: fi.Pkg.Name, name: fi.Name, fi: fi})
